@@ -6,7 +6,7 @@ matched for train data must not be smaller than the one matched for the segment 
 import hashlib
 import os
 
-from .. import cfggen, fold, model, runner, statemodel
+from .. import cfggen, fold, model, runner, statemodel, sweep
 from ..model import C
 from ..scen import Scn, up
 from .C07 import cfg_dir
@@ -167,6 +167,39 @@ def gen_conc(ctx, k):
     sc.add('endpar', 'quiesce', 'snap end', 'stop')
     return sc.text(), cfg, nodes
 
+def gen_directed(ctx, k):
+    """directed preemption: the receiver is paused at the j-th scheduling point of its processing of ONE report (j sweeps over lock
+    operations and library function entries); the main thread then calls the getters and releases it. The getter results must be
+    the state before or after that report, and train data must not be older than the segment data (same oracle as the concurrent part)."""
+    rng = ctx.sub_rng('c08d', k)
+    cfg = gen_cfg(rng)
+    d = cfggen.write_config(cfg, cfg_dir(f'c08d_{k}'))
+    nodes = cfggen.assign_tree(rng, cfg, absent_prob=0.0)
+    m = statemodel.Model(cfg, nodes)
+    sc = Scn(seed=ctx.seed * 59 + k, perturb=0, watchdog=240000)
+    sc.add(*cfggen.bus_lines(cfg, nodes), 'bus brackets 1', f'start {d} 0', 'quiesce', 'mark conc_begin')
+    segs = [s['id'] for b in cfg['boards'] for s in (b.get('segments') or [])]
+    fn = bool(k % 2)
+    kmax = 70 if fn else 14
+    n = rng.randrange(40, 100)
+    for i in range(n):
+        g = gen_bm(rng, m, cfg)
+        if not g:
+            break
+        j = 1 + (i * 7 + k) % kmax if rng.random() < 0.7 else rng.randrange(1, kmax + 1)
+        sc.add(f'pause recv {j}' + (' fn' if fn else ''), up(model.build_msg(g[0], 0, g[1], g[2])), 'waitpaused')
+        for _ in range(rng.randrange(1, 3)):
+            r_ = rng.random()
+            if r_ < 0.3:
+                sc.add(f'get train {rng.choice(cfg["trains"])["id"]}')
+            elif r_ < 0.5 and segs:
+                sc.add(f'get segment {rng.choice(segs)}')
+            else:
+                sc.add('get state x')
+        sc.add('release', 'quiesce')
+    sc.add('snap end', 'stop')
+    return sc.text(), cfg, nodes
+
 def eval_conc(ctx, r, cfg, nodes, meta):
     if ctx.generic_failures(r, meta):
         return
@@ -274,11 +307,16 @@ def run(ctx):
     for k in range(ctx.n(40, 1500)):
         text, cfg, nodes = gen_conc(ctx, k)
         jobs.append(('tsan' if k % 2 else 'asan', 'conc', text, cfg, nodes))
-    for fl in ('asan', 'tsan'):
+    for k in range(ctx.n(40, 1500)):
+        text, cfg, nodes = gen_directed(ctx, k)
+        jobs.append(('mon' if k % 4 < 2 else 'asan', 'directed', text, cfg, nodes))
+    for fl in ('asan', 'tsan', 'mon'):
         js = [j for j in jobs if j[0] == fl]
         res = runner.run_many(fl, [(i, j[2]) for i, j in enumerate(js)], timeout=600)
         for j, r in zip(js, res):
             meta = {'kind': j[1], 'digest': hashlib.sha1(j[2].encode()).hexdigest()[:12]}
             (eval_seq if j[1] == 'seq' else eval_conc)(ctx, r, j[3], j[4], meta)
+            if j[1] == 'directed':
+                sweep.pause_stats(ctx, r.events, 'directed')
     ctx.sample({'history': [l for l in jobs[0][2].split('\n') if l.startswith('up ')][:8]})
     return ctx.finish(min_eval=50, min_nontrivial=20)
